@@ -255,7 +255,7 @@ mod verif_vlm {
         kani::assume((l1 as usize) < 3 && (l2 as usize) < 3 && l1 != l2);
         kani::cover!(true, "proper swap arguments exist");
         m.swap_levels(l1, l2);
-        assert!(m.level_to_var(l1) == tv[l1 as usize], "SELFTEST: must be refuted");
+        assert!(m.level_to_var(l1) == tv[l1 as usize]); // SELFTEST: must be refuted
     }
 
     /// wrong postcondition: the first variable added by extend is mapped to level 0
@@ -264,6 +264,6 @@ mod verif_vlm {
     fn selftest_extend_maps_to_top_must_fail() {
         let (mut m, _tl, _tv) = any_state::<2>();
         m.extend(2);
-        assert!(m.var_to_level(2) == 0, "SELFTEST: must be refuted");
+        assert!(m.var_to_level(2) == 0); // SELFTEST: must be refuted
     }
 }
